@@ -1,4 +1,5 @@
 import TantivyModel.Model.WriterSpec
+import TantivyModel.Gen.WriterGuards
 /-
 Implementation-level model of tantivy's index writer (property C02; shared vocabulary for
 C04/C10/C17/C18): the *mechanism* of `src/indexer/*`, as a state machine whose internal
@@ -119,9 +120,28 @@ def history {α : Type} (es : List (Event α)) : List (Op α) := es.filterMap Ev
 section
 variable {α : Type}
 
+/-- a comparison of two opstamps as the extractor found it in the source
+(`Gen/WriterGuards.lean`: 0 `<`, 1 `<=`, 2 `>`, 3 `>=`) -/
+def cmpCode (code a b : Nat) : Bool :=
+  match code with
+  | 0 => decide (a < b)
+  | 1 => decide (a ≤ b)
+  | 2 => decide (b < a)
+  | 3 => decide (b ≤ a)
+  | _ => false
+
+/-- `doc_opstamp < delete_opstamp` of `DocToOpstampMapping::is_deleted`, as extracted -/
+def isDeletedGuard (docOp delOp : Nat) : Bool := cmpCode Gen.IS_DELETED_CMP docOp delOp
+/-- `delete_op.opstamp > target_opstamp` (the `break` of `compute_deleted_bitset`), as extracted -/
+def breakGuard (delOp target : Nat) : Bool := cmpCode Gen.COMPUTE_DELETED_BREAK_CMP delOp target
+/-- `operation.opstamp < target_opstamp` of `DeleteCursor::is_behind_opstamp`, as extracted -/
+def behindGuard (delOp target : Nat) : Bool := cmpCode Gen.SKIP_TO_CMP delOp target
+/-- `delete_operation.opstamp < committed_opstamp` of `SegmentUpdater::end_merge`, as extracted -/
+def catchUpGuard (delOp committedOpstamp : Nat) : Bool := cmpCode Gen.END_MERGE_CATCHUP_CMP delOp committedOpstamp
+
 /-- `DocToOpstampMapping::is_deleted` (`withMap = false` is `DocToOpstampMapping::None`) -/
 def isDeleted (withMap : Bool) (docOp delOp : Nat) : Bool :=
-  if withMap then decide (docOp < delOp) else true
+  if withMap then isDeletedGuard docOp delOp else true
 
 /-- the body of the loop of `compute_deleted_bitset` for one delete operation -/
 def kill (withMap : Bool) (del : DelOp α) (docs : List (SDoc α)) : List (SDoc α) :=
@@ -132,12 +152,12 @@ def consume (withMap : Bool) (target : Nat) :
     List (DelOp α) → List (SDoc α) → Nat → List (SDoc α) × Nat
   | [], docs, c => (docs, c)
   | del :: rest, docs, c =>
-    if del.op > target then (docs, c) else consume withMap target rest (kill withMap del docs) (c + 1)
+    if breakGuard del.op target then (docs, c) else consume withMap target rest (kill withMap del docs) (c + 1)
 
 /-- `DeleteCursor::skip_to` on the part of the queue at and after the cursor -/
 def skipTo (target : Nat) : List (DelOp α) → Nat → Nat
   | [], c => c
-  | del :: rest, c => if del.op < target then skipTo target rest (c + 1) else c
+  | del :: rest, c => if behindGuard del.op target then skipTo target rest (c + 1) else c
 
 def maxOp (docs : List (SDoc α)) : Nat := docs.foldl (fun m d => max m d.op) 0
 
@@ -191,7 +211,7 @@ if the next delete of the merged segment's cursor is older than the last commit,
 that commit -/
 def catchUp (log : List (DelOp α)) (committedOpstamp : Nat) (sg : Seg α) : Seg α :=
   match log[sg.cursor]? with
-  | some del => if del.op < committedOpstamp then advance log committedOpstamp sg else sg
+  | some del => if catchUpGuard del.op committedOpstamp then advance log committedOpstamp sg else sg
   | none => sg
 
 /-- `SegmentManager::end_merge` on one register -/
